@@ -117,6 +117,13 @@ theorem C13_ofBytes_no_oob (b : Bytes) : ofBytes b ≠ .error .oob := by
   · simp
   · split <;> simp
 
+/-- **Walking terminates and never reads outside, for every byte string** (well-formed or not:
+truncated files, corrupted size fields, arbitrary bytes): `walkTop` returns a tree or one of the
+exceptions the library throws on purpose; its step budget `|bytes|+1` is never exhausted and no
+out-of-bounds outcome is reached. -/
+theorem C13_walk_total (b : Bytes) : walkTop b ≠ .error .oob :=
+  (walk_fuel_enough (b.length + 1)).1 b (Nat.le_refl _)
+
 /- Non-vacuity: a concrete nested tree with an odd payload meets the hypotheses, and the
 round trip computes. -/
 def exTree : Tree :=
